@@ -65,28 +65,27 @@ Proof.
 Qed.
 
 Lemma loadConfig_inv cap i n1 n2 t : loadConfig cap i = Ok (Some n1, Some n2, Some t) ->
-  exists d, i = Doc d /\ load cap d = Ok (Some n1, Some n2, t).
+  exists d, i = Doc d /\ load cap d = Ok (n1, n2, t).
 Proof.
   destruct i as [| |d]; simpl; try discriminate.
   destruct (load cap d) as [[[a b] t']| | |] eqn:E; simpl; try discriminate.
   intros H. inversion H; subst. eauto.
 Qed.
 
-Lemma load_inv cap d o1 o2 t : load cap d = Ok (o1, o2, t) ->
-  opt_subnet (d_net1 d) = Ok o1 /\ opt_subnet (d_net2 d) = Ok o2 /\ load_loop cap o1 o2 (d_leases d) [] = Ok t.
+Lemma load_inv cap d s1 s2 t : load cap d = Ok (s1, s2, t) ->
+  (exists c1, d_net1 d = Some c1 /\ newSubnet c1 = Ok s1)
+  /\ (exists c2, d_net2 d = Some c2 /\ newSubnet c2 = Ok s2)
+  /\ t = load_loop cap s1 s2 (d_leases d) [].
 Proof.
   unfold load.
-  destruct (opt_subnet (d_net1 d)) as [a| | |] eqn:E1; simpl; try discriminate.
-  destruct (opt_subnet (d_net2 d)) as [b| | |] eqn:E2; simpl; try discriminate.
-  destruct (load_loop cap a b (d_leases d) []) as [t'| | |] eqn:E3; simpl; try discriminate.
-  intros H. inversion H; subst. auto.
-Qed.
-
-Lemma opt_subnet_some o n : opt_subnet o = Ok (Some n) -> exists c, o = Some c /\ newSubnet c = Ok n.
-Proof.
-  destruct o as [c|]; simpl; [|discriminate].
-  destruct (newSubnet c) as [s| | |] eqn:E; simpl; try discriminate.
-  intros H. inversion H; subst. eauto.
+  destruct (d_net1 d) as [c1|]; simpl.
+  - destruct (newSubnet c1) as [a| | |] eqn:E1; simpl; try discriminate.
+    destruct (d_net2 d) as [c2|]; simpl.
+    + destruct (newSubnet c2) as [b| | |] eqn:E2; simpl; try discriminate.
+      intros H. inversion H; subst. eauto 10.
+    + discriminate.
+  - destruct (d_net2 d) as [c2|]; simpl; [|discriminate].
+    destruct (newSubnet c2) as [b| | |]; simpl; discriminate.
 Qed.
 
 (* every state the constructor returns carries stable subnets *)
@@ -104,9 +103,7 @@ Proof.
     + apply configChanged_fresh; auto. simpl. rewrite pmasked_idem. reflexivity.
   - inversion H; subst; simpl. split; auto.
     destruct (loadConfig_inv _ _ _ _ _ HL) as (d & -> & Hl).
-    destruct (load_inv _ _ _ _ _ Hl) as (O1 & O2 & _).
-    destruct (opt_subnet_some _ _ O1) as (c1 & _ & N1).
-    destruct (opt_subnet_some _ _ O2) as (c2 & _ & N2).
+    destruct (load_inv _ _ _ _ _ Hl) as ((c1 & _ & N1) & (c2 & _ & N2) & _).
     repeat split; auto; eapply newSubnet_idem; eauto.
 Qed.
 
@@ -126,7 +123,7 @@ Qed.
 Lemma load_saved cap n1 n2 t ord :
   newSubnet (n_cfg n1) = Ok n1 -> newSubnet (n_cfg n2) = Ok n2 ->
   known_C18_restart n1 t = false -> NoDup (map l_cid t) -> Permutation ord t ->
-  load cap (save n1 n2 ord) = Ok (Some n1, Some n2, map (restored cap n2) (save_leases ord)).
+  load cap (save n1 n2 ord) = Ok (n1, n2, map (restored cap n2) (save_leases ord)).
 Proof.
   intros H1 H2 Hk Hnd Hp. unfold load, save; simpl. rewrite H1, H2. simpl.
   rewrite (load_loop_all_ok cap n1 n2 (save_leases ord) []); simpl; auto.
@@ -236,12 +233,10 @@ Proof.
   - destruct (reset_inv _ _ H) as (_ & _ & Ht). rewrite Ht in Hin. destruct Hin.
   - inversion H; subst; simpl in *.
     destruct (loadConfig_inv _ _ _ _ _ HL) as (d & -> & Hl).
-    destruct (load_filters _ _ _ _ _ Hl l Hin) as (Ha & (s1 & Es1 & Hc) & Hcid & Hdoc).
-    inversion Es1; subst s1.
+    destruct (load_filters _ _ _ _ _ Hl l Hin) as (Ha & Hc & Hcid & Hdoc).
     repeat split; auto; [eauto|].
     intros Hbits. simpl in Hbits.
-    destruct (load_inv _ _ _ _ _ Hl) as (O1 & _ & _).
-    destruct (opt_subnet_some _ _ O1) as (c1 & Ec1 & N1). rewrite Ec1 in Hbits.
+    destruct (load_inv _ _ _ _ _ Hl) as ((c1 & Ec1 & N1) & _ & _). rewrite Ec1 in Hbits.
     destruct (newSubnet_ok _ _ N1) as (n & b & El & Hb & Elan & _).
     rewrite El in Hbits. simpl in Hbits.
     (* configChanged false: the home address equals the loaded net1 address *)
